@@ -34,6 +34,17 @@ class C16:
             return {"host": h, "src": src, "replace": [list(p) for p in repl]}
         return case()
 
+    def strata(self, ctx):
+        out = []
+        for h in HOSTS:
+            @st.composite
+            def case(draw, h=h):
+                src = draw(gp.programs(h, size=draw(st.integers(2, 4))))
+                repl = draw(st.lists(st.sampled_from(REPL), max_size=3, unique_by=lambda p: p[0]))
+                return {"host": h, "src": src, "replace": [list(p) for p in repl]}
+            out.append(["host:" + h, case(), 1])
+        return out
+
     def judge(self, case, ctx):
         res = Result()
         h = case.get("host")
